@@ -46,8 +46,8 @@ ParamQueryOK(rec, q) ==
   LET doc == rec.doc  xk == Range(rec.xkeys)
       exp  == BriefMap(EffectiveParams(doc, xk, q.mu, q.p, rec.gn))
       bad  == BadRefs(doc, xk, q.mu, q.p)
-      got  == [k \in { q.result[i].key : i \in DOMAIN q.result } |-> LET e == q.result[CHOOSE i \in DOMAIN q.result : q.result[i].key = k] IN <<e.name, e.inn, e.ref>>]
-      gotv == { <<q.result[i].name, q.result[i].inn, q.result[i].ref>> : i \in DOMAIN q.result }
+      got  == [k \in { q.result[i].key : i \in DOMAIN q.result } |-> LET e == q.result[CHOOSE i \in DOMAIN q.result : q.result[i].key = k] IN <<e.name, e.inn, e.ref, e.tag>>]
+      gotv == { <<q.result[i].name, q.result[i].inn, q.result[i].ref, q.result[i].tag>> : i \in DOMAIN q.result }
   IN
   IF q.variant = "plain"
   THEN /\ q.panicked = (bad # <<>>)
@@ -57,7 +57,9 @@ ParamQueryOK(rec, q) ==
        /\ IF q.policy = "continue"
           THEN /\ (IF q.byid THEN gotv = Range(exp) /\ Len(q.result) = Cardinality(DOMAIN exp) ELSE got = exp)
                /\ [i \in DOMAIN q.errors |-> <<q.errors[i].ref, q.errors[i].kind>>] = bad
-          ELSE /\ (IF q.byid THEN gotv \subseteq Range(exp) ELSE \A k \in DOMAIN got : k \in DOMAIN exp /\ got[k] = exp[k])
+          \* stopped half-way: what is returned are parameters the fold met under their keys (a path-level one may not have been overridden yet)
+          ELSE /\ LET cand == Candidates(doc, xk, q.mu, q.p, rec.gn) IN
+                  (IF q.byid THEN gotv \subseteq { c[2] : c \in cand } ELSE \A k \in DOMAIN got : <<k, got[k]>> \in cand)
                /\ (bad # <<>> => q.errors # <<>>)
                /\ \A i \in DOMAIN q.errors : \E j \in DOMAIN bad : <<q.errors[i].ref, q.errors[i].kind>> = bad[j]
 
